@@ -13,32 +13,39 @@ Inductive fstate :=
 
 Record fexp := mkF {
   f_rd : reader; f_labels : list text; f_expr : list token;
-  f_count_label : text; f_line_labels : list text; f_to_write : option (list text);
+  f_count_label : text; f_line_labels : list text; f_labels_at : option nat;
   f_count : Z; f_content : list token; f_depth : nat;
   f_out : list token;      (* sends so far *)
   f_stuck : bool }.        (* blocked forever re-sending a terminal token *)
 
 Definition f_set_rd (f : fexp) (r : reader) : fexp :=
-  mkF r (f_labels f) (f_expr f) (f_count_label f) (f_line_labels f) (f_to_write f)
+  mkF r (f_labels f) (f_expr f) (f_count_label f) (f_line_labels f) (f_labels_at f)
       (f_count f) (f_content f) (f_depth f) (f_out f) (f_stuck f).
 Definition f_send (f : fexp) (ts : list token) : fexp :=
-  mkF (f_rd f) (f_labels f) (f_expr f) (f_count_label f) (f_line_labels f) (f_to_write f)
+  mkF (f_rd f) (f_labels f) (f_expr f) (f_count_label f) (f_line_labels f) (f_labels_at f)
       (f_count f) (f_content f) (f_depth f) (f_out f ++ ts) (f_stuck f).
 Definition f_set_labels (f : fexp) (l : list text) : fexp :=
-  mkF (f_rd f) l (f_expr f) (f_count_label f) (f_line_labels f) (f_to_write f)
+  mkF (f_rd f) l (f_expr f) (f_count_label f) (f_line_labels f) (f_labels_at f)
       (f_count f) (f_content f) (f_depth f) (f_out f) (f_stuck f).
 Definition f_set_expr (f : fexp) (e : list token) : fexp :=
-  mkF (f_rd f) (f_labels f) e (f_count_label f) (f_line_labels f) (f_to_write f)
+  mkF (f_rd f) (f_labels f) e (f_count_label f) (f_line_labels f) (f_labels_at f)
       (f_count f) (f_content f) (f_depth f) (f_out f) (f_stuck f).
 Definition f_set_content (f : fexp) (c : list token) : fexp :=
-  mkF (f_rd f) (f_labels f) (f_expr f) (f_count_label f) (f_line_labels f) (f_to_write f)
+  mkF (f_rd f) (f_labels f) (f_expr f) (f_count_label f) (f_line_labels f) (f_labels_at f)
       (f_count f) c (f_depth f) (f_out f) (f_stuck f).
 Definition f_set_depth (f : fexp) (d : nat) : fexp :=
-  mkF (f_rd f) (f_labels f) (f_expr f) (f_count_label f) (f_line_labels f) (f_to_write f)
+  mkF (f_rd f) (f_labels f) (f_expr f) (f_count_label f) (f_line_labels f) (f_labels_at f)
       (f_count f) (f_content f) d (f_out f) (f_stuck f).
-Definition f_set_to_write (f : fexp) (w : option (list text)) : fexp :=
+Definition f_set_labels_at (f : fexp) (w : option nat) : fexp :=
   mkF (f_rd f) (f_labels f) (f_expr f) (f_count_label f) (f_line_labels f) w
       (f_count f) (f_content f) (f_depth f) (f_out f) (f_stuck f).
+(* markLineLabels: the first line of the body itself (depth 0) that is an instruction or the header
+   of a nested block is where the labels in front of the counter go *)
+Definition f_mark (f : fexp) : fexp :=
+  match f_depth f, f_labels_at f with
+  | O, None => f_set_labels_at f (Some (length (f_content f)))
+  | _, _ => f
+  end.
 
 Definition f_next (f : fexp) : fexp := f_set_rd f (rnext (f_rd f)).
 Definition f_nt (f : fexp) : token := r_next (f_rd f).
@@ -60,20 +67,41 @@ Fixpoint repeat_body (n : nat) (i : N) (count_label : text) (line_labels : list 
             ++ repeat_body n' (i + 1) count_label line_labels body
   end.
 
+(* the first iteration: the block labels are written in front of the token at index [at] *)
+Fixpoint emit_first (j : nat) (at_ : option nat) (labs : list token) (count_label : text)
+         (line_labels : list text) (body : list token) : list token :=
+  match body with
+  | [] => []
+  | t :: r =>
+    (match at_ with Some a => if Nat.eqb a j then labs else [] | None => [] end)
+    ++ subst_body count_label line_labels 1 t :: emit_first (S j) at_ labs count_label line_labels r
+  end.
+(* what forRof sends for the block: with a count below one only the labels (when the body has a line
+   for them), otherwise the first iteration with the labels in place, then iterations 2 .. count *)
+Definition emit_body (n : nat) (at_ : option nat) (count_label : text) (line_labels : list text)
+           (body : list token) : list token :=
+  let labs := map (mkT tokText) line_labels in
+  match n with
+  | O => match at_ with Some _ => labs | None => [] end
+  | S n' => emit_first 0 at_ labs count_label line_labels body
+            ++ repeat_body n' 2 count_label line_labels body
+  end.
+
 Fixpoint init_list {A} (l : list A) : list A :=
   match l with [] => [] | [_] => [] | x :: t => x :: init_list t end.
 
 Section Exp.
 Variable symbols : symtab.
 
-(* skip the rest of the rof line *)
-Fixpoint rof_skip (n : nat) (f : fexp) : fexp * bool :=      (* bool: reached the newline *)
+(* skip the rest of the rof line (its newline included); the line may be the last one and lack a newline *)
+Fixpoint rof_skip (n : nat) (f : fexp) : fexp * bool :=      (* bool: the line ended (newline or EOF) *)
   match n with
   | O => (f, false)
   | S n' =>
     match t_typ (f_nt f) with
-    | tokNewline => (f, true)
-    | tokEOF | tokError => (f_send f [f_nt f], false)
+    | tokNewline => (f_next f, true)
+    | tokEOF => (f, true)
+    | tokError => (f_send f [f_nt f], false)
     | _ => rof_skip n' (f_next f)
     end
   end.
@@ -134,7 +162,7 @@ Definition for_step (st : fstate) (f : fexp) : option (fexp * option fstate) :=
       let labels := f_labels f in
       let cl := last labels [] in
       let ll := init_list labels in
-      Some (mkF (f_rd f) [] (f_expr f) cl ll (Some ll) v [] (f_depth f)
+      Some (mkF (f_rd f) [] (f_expr f) cl ll None v [] (f_depth f)
                 (f_out f) (f_stuck f), Some FInnerLine)
     | Some _ => Some (f_send f [mkT tokError []], None)
     end
@@ -147,19 +175,16 @@ Definition for_step (st : fstate) (f : fexp) : option (fexp * option fstate) :=
     match t_typ nt with
     | tokText =>
       if tok_is_pseudo nt then
-        if lower_is (t_val nt) "for" then Some (f_set_depth f (S (f_depth f)), Some FInnerEmitLabels)
+        if lower_is (t_val nt) "for" then Some (f_set_depth (f_mark f) (S (f_depth f)), Some FInnerEmitLabels)
         else if lower_is (t_val nt) "rof" then
           match f_depth f with
           | S d => Some (f_set_depth f d, Some FInnerEmitConsumeLine)
           | O => Some (f, Some FRof)
           end
         else Some (f, Some FInnerEmitLabels)
-      else if tok_is_op nt then
-        match f_to_write f with
-        | Some ls => Some (f_set_to_write (f_send f (map (mkT tokText) ls)) None, Some FInnerEmitLabels)
-        | None => Some (f, Some FInnerEmitLabels)
-        end
+      else if tok_is_op nt then Some (f_mark f, Some FInnerEmitLabels)
       else Some (f_next (f_set_labels f (f_labels f ++ [t_val nt])), Some FInnerLabels)
+    | tokColon => Some (f_next f, Some FInnerLabels)
     | _ => Some (f, Some FInnerEmitLabels)
     end
   | FInnerEmitLabels =>
@@ -174,9 +199,8 @@ Definition for_step (st : fstate) (f : fexp) : option (fexp * option fstate) :=
   | FRof =>
     match rof_skip (S (S (length (r_toks (f_rd f))))) f with
     | (f1, false) => Some (f1, None)
-    | (f1, true) =>
-      let f2 := f_next f1 in
-      let body := repeat_body (Z.to_nat (f_count f2)) 1 (f_count_label f2) (f_line_labels f2) (f_content f2) in
+    | (f2, true) =>
+      let body := emit_body (Z.to_nat (f_count f2)) (f_labels_at f2) (f_count_label f2) (f_line_labels f2) (f_content f2) in
       Some (f_send f2 body, Some FEmitConsumeStream)
     end
   | FEmitConsumeStream =>
